@@ -284,8 +284,10 @@ Definition fit_starting (k : fit_skind) (st : fit_start) (names : list str) (col
         match fit_lookup name names cols with
         | None => Err EKey
         | Some col =>
+            (* best_feat = model.direction: the feature's name (repaired in /repo, 53bc608; it used to be the
+               feature's values, which no later step could use) — reported here as its position *)
             match fit_direction_labels col targets thr with
-            | Ok (l, c, d) => Ok (l, c, Some d, None)
+            | Ok (l, c, d) => Ok (l, c, Some d, index_str name names)
             | Err e => Err e
             end
         end
